@@ -290,6 +290,9 @@ def ext_menu():
                                                                    params=[], results=[[(16, b'\x83\x40\xa0\xf6')], [(16, b'\x83\x40\xa0\xf6')]]))),
         # a confidentiality block whose target has no security result (the tag stays in the ciphertext): an empty result set
         dict(type=12, flags=0, crc_type=0, data=B.enc_asb(dict(targets=[1], context=3, flags=0, source='ipn:1.0', params=[], results=[[]]))),
+        # the parameters-present flag with an empty parameter array (legal for an RFC 9172 encoder; the array must not vanish)
+        dict(type=11, flags=0, crc_type=1, data=B.enc_asb(dict(targets=[1], context=3, flags=1, source='ipn:1.0', params=[],
+                                                                   results=[[(17, b'\x84\x40\xa0\xf6\x41\x00')]]))),
     ]
 
 
